@@ -178,9 +178,16 @@ def main(argv):
         proof_broken = "theorems depend on axioms: " + json.dumps(nonclosed)[:1500]
 
     # ---- 2. cases ----
+    replay_stage_only = False
     if a.replay:
         info = json.load(open(a.replay))
-        cases = oracles.case_from_replay(info)
+        try:
+            cases = oracles.case_from_replay(info)
+        except Exception:
+            # the replay belongs to an extra stage (floating-point tier, examples, threads, scanners) or to a
+            # broken proof obligation: re-run the whole check, which re-runs that stage / re-checks the proofs
+            cases = cfg["gen"](seed, tier)
+            replay_stage_only = True
     else:
         cases = cfg["gen"](seed, tier)
     assert len({c.cid for c in cases}) == len(cases), "duplicate case ids"
@@ -226,7 +233,7 @@ def main(argv):
     extra_eval = 0
     extra_samples = []
     extra_notes = {}
-    for stage in cfg.get("extra_stages", []):
+    for stage in (cfg.get("extra_stages", []) if (not a.replay or replay_stage_only) else []):
         r = stage(pid, seed, tier, workdir)
         diffs += r.get("diffs", [])
         infra += r.get("infra", [])
